@@ -132,10 +132,16 @@ CLAIMS.update({
              "threads, 1-2 columns), and model = implementation on all of them.",
         note=NU_NOTE),
     "C07": dict(
-        technique="Lean 4 theorems about the append-shortcut decision rule + end-to-end comparison of every quiescent history with a fresh Nucleo",
+        technique="Lean 4 theorems (append-shortcut decision rule; worker-level convergence from the run contracts: bookkeeping survives every run, rebuilding runs repair, incremental runs preserve, quiescent = from scratch) + end-to-end comparison of every quiescent history with a fresh Nucleo",
         text="Partial proof. Theorems: the Update shortcut is taken only for a truthful append onto a column not already due for a rescore whose last atom is positive, not "
              "postfix/exact, does not end in a backslash and (unless fuzzy) not in an escaped dollar (repair of F9), with decided witnesses that each excluded class is not a "
-             "narrowing; a cancelling tick always hands the worker the current pattern. Convergence itself is checked end to end: every generated history is driven to quiescence "
+             "narrowing; a cancelling tick always hands the worker the current pattern. Convergence at the level of the worker (companion file C07_Quiescent, on the run contracts "
+             "of C06_RunContract): the bookkeeping invariant survives every run, completed or cancelled at any point (BK_run); a completed rebuilding run (rescoring after a "
+             "non-appended edit or restart, or the empty pattern) makes the match list right from any such state (C07_rescore_establishes, C07_any_run_then_rescore); completed "
+             "incremental runs keep it right (C07_unchanged_preserves, C07_update_preserves - the latter needs exactly the narrowing property the Update rule is about); and a right "
+             "list with nothing in flight is the from-scratch result over all items, with the item count equal to their number (C07_quiescent). Not a theorem: an appended edit "
+             "directly after a cancelled run, and the composition with the tick protocol into one history-level statement (C19's invariant covers the snapshot side). "
+             "Convergence is also checked end to end: every generated history is driven to quiescence "
              "and its snapshot compared with a fresh Nucleo fed the same items and final pattern (oracle independent of the model).",
         note=NU_NOTE),
     "C12": dict(
